@@ -17,8 +17,10 @@ VARIABLES l, bad, stats,
 
 tvars == <<l, bad, stats, s>>
 E == Tr[l]
-Fresh == [started |-> FALSE, lost |-> FALSE, notified |-> FALSE, dials |-> 0, mark |-> 0, est |-> 0, failed |-> 0,
-          arg |-> "", closes |-> 0]
+\* notified: "no" | "yes" | "maybe" - a close notification seen while the connection is lost belongs to the current
+\* session, or (maybe) to an earlier attempt that failed after its connection was up (such an attempt may notify, late)
+Fresh == [started |-> FALSE, lost |-> FALSE, notified |-> "no", dials |-> 0, mark |-> 0, est |-> 0, failed |-> 0,
+          arg |-> "", closes |-> 0, owed |-> 0]
 
 TraceInit == l = 1 /\ bad = <<>> /\ s = Fresh
              /\ stats = [scenarios |-> 0, ops |-> 0, starts |-> 0, probes |-> 0, rejected |-> 0]
@@ -30,7 +32,8 @@ Go(c, n) == l' = l + 1 /\ stats' = Bump(c) /\ s' = n /\ UNCHANGED bad
 Skip == l' = l + 1 /\ UNCHANGED <<bad, stats, s>>
 
 \* the stub believes it is started until it has been told (or told itself) otherwise
-Believes == s.started /\ ~(s.lost /\ s.notified)
+Believes == s.started /\ ~(s.lost /\ s.notified = "yes")
+Unsure == s.started /\ s.lost /\ s.notified = "maybe"   \* the stub may or may not have been told yet
 Running == s.started /\ ~s.lost
 MustFail == {"unreachable", "refuse", "drop-connect", "drop-register", "drop-after-register"}
 
@@ -40,24 +43,29 @@ TOp == Go("ops", [s EXCEPT !.mark = s.dials, !.arg = E.arg,
                            !.lost = IF E.op = "PeerDrop" THEN s.started ELSE @])
 TDial == Go("ops", [s EXCEPT !.dials = @ + 1])
 \* the close notification has been processed by the stub when the callback runs
-TOnClose == Go("ops", [s EXCEPT !.closes = @ + 1, !.notified = IF s.lost THEN TRUE ELSE @])
+TOnClose ==
+  IF s.started /\ s.lost /\ s.notified # "yes"
+  THEN IF s.owed > 0 /\ s.notified = "no"
+       THEN Go("ops", [s EXCEPT !.closes = @ + 1, !.notified = "maybe"])                 \* this one, or a stale one
+       ELSE Go("ops", [s EXCEPT !.closes = @ + 1, !.notified = "yes", !.owed = IF s.notified = "maybe" /\ @ > 0 THEN @ - 1 ELSE @])
+  ELSE Go("ops", [s EXCEPT !.closes = @ + 1, !.owed = IF @ > 0 THEN @ - 1 ELSE 0])
 
 TRes ==
   IF E.class = "hung" /\ E.op = "Wait" /\ Believes THEN Skip      \* waiting for a running stub blocks by design
   ELSE IF E.class = "hung" THEN Reject("C16-" \o E.op \o "-hung", <<s.arg, E.ms>>)
   ELSE IF E.op = "Start"
-  THEN IF Believes
+  THEN IF Believes /\ ~(Unsure /\ s.dials # s.mark)
        THEN IF E.class = "ok" THEN Reject("C16-second-start-succeeds", <<>>) ELSE Skip
        ELSE IF s.dials = s.mark THEN Reject("C16-stale-connection", <<s.arg, E.errtext>>)   \* no fresh connection dialled
        ELSE IF s.arg = "healthy"
             THEN IF E.class # "ok" THEN Reject("C16-start-failed", <<E.errtext>>)
-                 ELSE Go("starts", [s EXCEPT !.started = TRUE, !.lost = FALSE, !.notified = FALSE, !.est = @ + 1])
+                 ELSE Go("starts", [s EXCEPT !.started = TRUE, !.lost = FALSE, !.notified = "no", !.est = @ + 1])
             ELSE IF s.arg \in MustFail /\ E.class = "ok" THEN Reject("C16-start-succeeded-unexpectedly", <<s.arg>>)
             ELSE IF E.class = "ok"     \* a cut late in the handshake: the session got established, and is lost
-                 THEN Go("starts", [s EXCEPT !.started = TRUE, !.lost = TRUE, !.notified = FALSE, !.est = @ + 1])
-                 ELSE Go("starts", [s EXCEPT !.started = FALSE, !.lost = FALSE, !.notified = FALSE, !.failed = @ + 1])
+                 THEN Go("starts", [s EXCEPT !.started = TRUE, !.lost = TRUE, !.notified = "no", !.est = @ + 1])
+                 ELSE Go("starts", [s EXCEPT !.started = FALSE, !.lost = FALSE, !.notified = "no", !.failed = @ + 1, !.owed = @ + 1])
   ELSE IF E.op = "Stop"
-  THEN Go("ops", [s EXCEPT !.started = FALSE, !.lost = FALSE, !.notified = FALSE])
+  THEN Go("ops", [s EXCEPT !.started = FALSE, !.lost = FALSE, !.notified = "no"])
   ELSE Skip
 
 \* the current session works iff the stub is running on a live connection
